@@ -359,6 +359,23 @@ Definition do_move (dp : nat) (k : mkind) (s : st) (r : req) (mv target : point)
          end
   end.
 
+(* PathTracer.polyline / the emission loop of PathTracer.parametric: each absolute vertex is
+   converted with to_distance_mode and handed to move(); the first rejected move ends the call *)
+Fixpoint poly_go (dp : nat) (ps : params) (pts : list point) (s : st) (acc : list line)
+  (calls : list hookcall) : res :=
+  match pts with
+  | [] => (s, acc, calls, None)
+  | p :: pts' =>
+    let q := to_distance_mode s p in
+    let r := mkreq (Some (Fin (res1 (px q)))) (Some (Fin (res1 (py q)))) (Some (Fin (res1 (pz q)))) in
+    let '(mv, target) := transform_move s q in
+    let '(s1, ls, cs, e) := do_move dp Linear s r mv target ps in
+    match e with
+    | Some _ => (s1, acc ++ ls, calls ++ cs, e)
+    | None => poly_go dp ps pts' s1 (acc ++ ls) (calls ++ cs)
+    end
+  end.
+
 Definition set_distance (s : st) (d : dmode) : st * line :=
   (written (set_sdm (set_dm s d) d), [i_dmode d]).
 
@@ -496,20 +513,7 @@ Definition step1 (dp : nat) (s : st) (c : cmd) : res :=
                          end
              end
       end
-  | Polyline pts ps =>
-      (fix go (pts : list point) (s : st) (acc : list line) (calls : list hookcall) : res :=
-         match pts with
-         | [] => (s, acc, calls, None)
-         | p :: pts' =>
-           let q := to_distance_mode s p in
-           let r := mkreq (Some (Fin (res1 (px q)))) (Some (Fin (res1 (py q)))) (Some (Fin (res1 (pz q)))) in
-           let '(mv, target) := transform_move s q in
-           let '(s1, ls, cs, e) := do_move dp Linear s r mv target ps in
-           match e with
-           | Some _ => (s1, acc ++ ls, calls ++ cs, e)
-           | None => go pts' s1 (acc ++ ls) (calls ++ cs)
-           end
-         end) pts s [] []
+  | Polyline pts ps => poly_go dp ps pts s [] []
   | SetDistance m =>
       match m with BadName => fail s [] ValueErr
       | Member d => let '(s1, l) := set_distance s d in ok s1 [l] end
